@@ -25,6 +25,8 @@ def kname(l):
 def run(prog, world, sem, rep):
     rep.rule("C16.a", "mirror agreement: for every bSei message variant the multiset of reward messages {Increase|Decrease(address, amount)} "
              "equals the cw20 ledger's balance deltas {+|-(account, amount)} (same accounts, signs and amount)", 9)
+    rep.rule("C16.g", "the mirror is unconditional: every success exit of a balance-changing bSei variant passes the construction of each of its mirror "
+             "messages, except through an edge on which the debited and the credited account were observed to be the same address", 7)
     rep.rule("C16.f", "reward side: every success exit of IncreaseBalance / DecreaseBalance has written both the holder record and State (no path "
              "updates one store and not the other)", 2)
     rep.rule("C16.c", "in Send / SendFrom the mirror messages precede the wrapped response's messages (the receive hook)", 2)
@@ -67,6 +69,42 @@ def run(prog, world, sem, rep):
                 bad.append("mirror payload type %s" % payload.info[0])
         if ledger != mirror:
             bad.append("ledger deltas %s but mirror messages %s" % (sorted(ledger), sorted(mirror)))
+        if ledger:
+            # C16.g: must-pass-through at the level of the variant's handler
+            hh = arm_handler(sem, vs)
+            accounts = {a for (_, a, _) in ledger}
+
+            def same_account(f, resolve):
+                if f[0] == "cmp" and f[1] == "Eq":
+                    ks = {kname(sem.label(resolve(f[2]))), kname(sem.label(resolve(f[3])))}
+                    return len(accounts) == 2 and ks == accounts
+                return False
+            allowed = set()
+            for blk in hh.body.blocks:
+                if blk.term.kind == "switch" and blk.idx in hh.blocks:
+                    for succ, fl in sem.edge_facts(hh.be, blk.idx).items():
+                        if any(same_account(f, hh.resolve) for f in fl):
+                            allowed.add((blk.idx, succ))
+            oks = [bb for (bb, idx, kind, x) in sem.ret_sites(hh.be) if kind == "ok" and bb in hh.blocks]
+            skipped = []
+            nsites = 0
+            for (vis, bb, i, e) in message_effects(sem, vs):
+                r = wasm_execute(world, sem, e)
+                if r is None or r[1] is None or r[1].op != "adt" or r[1].info[1] not in ("IncreaseBalance", "DecreaseBalance"):
+                    continue
+                lv, lbb = vis, bb
+                while lv is not hh and lv.parent is not None:
+                    lv, lbb = lv.parent
+                if lv is not hh:
+                    continue
+                nsites += 1
+                reach = hh.be.cfg.reach([0], removed=allowed, stop={lbb})
+                if any(b in reach and b != lbb for b in oks):
+                    skipped.append("%s (line %d)" % (r[1].info[1], vis.body.blocks[bb].term.line))
+            rep.ob("C16.g", "bsei::%s always emits its mirror messages" % v, bool(oks) and nsites > 0 and not skipped,
+                   "a success exit of bsei::%s is reachable without emitting %s although the ledger changes (only a transfer whose debited and credited "
+                   "account coincide may skip the mirror)" % (v, skipped) if skipped else "every success exit carries the %d mirror message(s)" % nsites,
+                   where(hh.body), key="C16.g | bsei::%s" % v)
         st = stale_reads(sem, eff, {BAL: []})
         if st:
             bad.append("a balance saved at line %d is computed from a load made stale by the write at line %d when the accounts coincide (the mirror messages net to zero, the ledger does not)" % (
